@@ -146,9 +146,14 @@ def _sequential(run, rng, thorough):
     for s in starts32:
         g = H.SequenceGenerator()
         g._sequence = s
-        vals = [g.next_sequence() for _ in range(n_draws)]
-        run.count(1, [("seqrun", s)])
         case = {"generator": "seq", "start": s, "draws": n_draws}
+        try:
+            vals = [g.next_sequence() for _ in range(n_draws)]
+        except Exception as e:   # noqa
+            run.violation("all-calls-return", case, f"{type(e).__name__}: {e}", "every draw returns an identifier",
+                          what=f"next_sequence() raises {type(e).__name__} after start value {s}")
+            continue
+        run.count(1, [("seqrun", s)])
         if len(set(vals)) != len(vals):
             run.violation("pairwise-distinct", case, "duplicate among successive draws")
         if any(v == 0 or v > MAX32 or v < 0 for v in vals):
@@ -169,9 +174,19 @@ def _sequential(run, rng, thorough):
         g._base_value = base.to_bytes(4, "big").hex()
         n = 200
         ids = []
+        failed = None
         for i in range(n):
             opt = ["opt%d" % i, "x"][: (i % 3)]
-            ids.append((g.next_id(*opt), opt))
+            try:
+                ids.append((g.next_id(*opt), opt))
+            except Exception as e:   # noqa
+                failed = (i, e)
+                break
+        if failed:
+            run.violation("all-calls-return", {"generator": "session", "start": s, "draws": n, "draw": failed[0]},
+                          f"{type(failed[1]).__name__}: {failed[1]}", "every draw returns a session id",
+                          what=f"next_id() raises {type(failed[1]).__name__} at draw {failed[0]} after start value {s}")
+            continue
         nums = [_num("session", v) for v, _ in ids]
         run.count(1, [("sessrun", s)])
         case = {"generator": "session", "start": s, "draws": n}
